@@ -218,7 +218,7 @@ func MakeRaw(args []Sexp) (*SexpRaw, error) {
 			return e, nil
 		default:
 			return &SexpRaw{},
-				fmt.Errorf("raw takes only string arguments. We see %T: '%v'", e, e)
+				fmt.Errorf("raw takes only string arguments. We see %T: '%s'", e, e.SexpString(nil))
 		}
 	}
 	return &SexpRaw{Val: raw}, nil
